@@ -61,9 +61,20 @@ fn main() {
     let vals = &script["values"];
     let explicit = script["explicit_profile"].as_str().map(|s| s.to_string());
     let envp = script["env_profile"].as_str().map(|s| s.to_string());
-    let dir = std::env::temp_dir().join(format!("verif-c18-{}", std::process::id()));
-    let _ = std::fs::remove_dir_all(&dir);
+    // "dir_mode": "absolute" (default) = an absolute configuration directory; "relative" = the relative
+    // directory "cf" under the working directory; "ancestor" = the relative directory "cf" sitting in
+    // an ancestor of the working directory (figment searches ancestors for relative paths)
+    let mode = script["dir_mode"].as_str().unwrap_or("absolute").to_string();
+    let root = std::env::temp_dir().join(format!("verif-c18-{}", std::process::id()));
+    let _ = std::fs::remove_dir_all(&root);
+    let dir = root.join("cf");
     std::fs::create_dir_all(&dir).unwrap();
+    std::fs::create_dir_all(root.join("sub").join("deeper")).unwrap();
+    match mode.as_str() {
+        "relative" => std::env::set_current_dir(&root).unwrap(),
+        "ancestor" => std::env::set_current_dir(root.join("sub").join("deeper")).unwrap(),
+        _ => {}
+    }
     let selected = explicit.clone().or_else(|| envp.clone().filter(|p| p == "dev" || p == "prd"));
     std::fs::write(dir.join("base.yml"), yaml(&vals[0])).unwrap();
     // the profile file of the profile that should be selected holds the values; the other profile's
@@ -86,12 +97,13 @@ fn main() {
             std::env::set_var("PX_PROFILE", p);
         }
     }
-    let mut loader = ConfigLoader::<Prof>::new().configuration_dir(&dir);
+    let mut loader = if mode == "absolute" { ConfigLoader::<Prof>::new().configuration_dir(&dir) } else { ConfigLoader::<Prof>::new().configuration_dir("cf") };
     if let Some(p) = &explicit {
         loader = loader.profile(p.parse().unwrap());
     }
     let r: Result<Cfg, _> = loader.load();
-    let _ = std::fs::remove_dir_all(&dir);
+    let _ = std::env::set_current_dir(std::env::temp_dir());
+    let _ = std::fs::remove_dir_all(&root);
     let want = |k: usize| vals[2][k].as_u64().or(vals[1][k].as_u64()).or(vals[0][k].as_u64());
     let fail = |m: String| -> ! {
         println!("REPRODUCED: {m}");
